@@ -212,7 +212,7 @@ def run(ctx):
     rng = ctx.rng
     items = []
     for i in range(ctx.n(70, 1200)):
-        b = genbasis.gen_basis(rng, kinds=rng.choice([None, ['pople', 'ecp'], ['general', 'ecp', 'highl'], ['ecponly', 'plain']]))
+        b = genbasis.gen_basis(rng, kinds=rng.choice([None, ['pople', 'ecp'], ['general', 'ecp', 'highl'], ['ecponly', 'plain'], ['ecpgap', 'ecpsingle', 'plain']]))
         items.append(('gen%d' % i, b, ['complete', 'minimal', 'component'][i % 3], 'm%d-%d' % (i, ctx.seed)))
     reqs, meta = [], []
     for i in range(0, len(items), 90):
